@@ -403,7 +403,10 @@ def validate_native(h, results, sample=None, seed=0):
         if nat and all(o.get('timeout') for o in nat):
             # the whole batch timed out: a loaded machine, not a verdict about any path; retry once with a generous limit
             nat = harness.run_native(h, cases, timeout=900)
-            if nat and all(o.get('timeout') for o in nat): return 0, []
+            if nat and all(o.get('timeout') for o in nat):
+                # still nothing: some input makes the native parser hang; find it by running the cases one by one
+                nat = [harness.run_native(h, [c], timeout=20)[0] for c in cases[:80]]
+                normal = normal[:80]
         for r, o in zip(normal, nat):
             d = compare_native(h, r, o); cnt += 1
             if d: mism.append((r, d))
